@@ -519,5 +519,5 @@ def run(ctx):
     rule_dispatch(ctx, py)
     ctx.analysed["package"] = {"modules": len(py.mods), "functions": py.nfuncs}
     from .. import lints
-    lints.run(ctx, "C12", ctx.py, ["filepath", "rdoutput"], truth_floor=12)
+    lints.run(ctx, "C12", ctx.py, ["filepath", "rdoutput", "text_array_rw", "rdscript", "rdsystem", "rdnetwork", "rdspace", "rdgridspace", "rdgraphspace", "value_processing"], truth_floor=12)
     ctx.assume("equality of content after a round trip (values, unit conversion of printed quantities) is not decided")
